@@ -20,6 +20,7 @@ TECHNIQUE = "online report post-condition: AssertionError text parsed into line-
 LEVEL_TEXT = 'Held on every observed failing evaluation: the parsed report equals the reference violating set in both directions of inclusion (strict domain), and every positive line is a real import involving the subject (all well-formed rules). Complete over small trees, sampled beyond.'
 LEVEL_NOTE = "Trusts R-RULE's violating sets and the message parser (an unparseable line is itself reported)."
 LEVEL_TEXT += " Reports of failing layer rules (C05's driver, incl. layers that list a module next to its ancestor) are compared with the violating set of R-LAYER as well. Additionally an end-to-end soak: random projects on disk are scanned with the real scanner (externals kept or dropped, external exclusions, level limits, module_path below the root) and module rules, layer rules, diagram rules and plots are interleaved on those architectures with every monitor armed."
+LEVEL_TEXT += ' Name pools include unusual legal identifiers (non-ASCII, combining marks, U+00B7, case / zero-padding twins, py*/init* names).'
 RULE = (
     "an evaluation = one failing-or-passing Rule.assert_applies crossing the monitored boundary; non-trivial = the rule "
     "FAILED and its report was parsed and compared line-set against R-RULE's violating sets; distinct = distinct "
